@@ -350,6 +350,36 @@ Section WithEnv.
   Lemma Forall_rev_append {A} (P : A -> Prop) a b : Forall P a -> Forall P b -> Forall P (rev_append a b).
   Proof. intros Ha Hb. rewrite rev_append_rev. apply Forall_app. split; [now apply Forall_rev|exact Hb]. Qed.
 
+  (* the inflate step of an eager load keeps every invariant: the buffer the interface hands back is one byte
+     longer than the size *)
+  Lemma inflate_step_total compr lazy s :
+    fits s ->
+    exists s', inflate_step compr lazy s = Ok s' /\ fits s' /\ s_stream_size s' = s_stream_size s /\ sh_type s' = sh_type s.
+  Proof.
+    intros F. unfold inflate_step. destruct (lazy || negb (is_compressed compr s)); [exists s; auto|].
+    destruct (s_data s) as [b|] eqn:Ed; [|exists s; auto].
+    unfold fits in F. rewrite Ed in F.
+    unfold rd. destruct (N.eqb_spec (sh_size s) 0) as [Z|Z]; cbn [bind].
+    - eexists. split; [reflexivity|]. split; [unfold fits; cbn; rewrite Z; cbn; lia|split; reflexivity].
+    - destruct (N.leb_spec (0 + sh_size s) (lenN b)); [|lia]. cbn [bind].
+      eexists. split; [reflexivity|]. split; [|split; reflexivity].
+      unfold fits. cbn. rewrite lenN_app, lenN_map. unfold sliceN. rewrite lenN_firstnN, lenN_skipnN. cbn [lenN]. lia.
+  Qed.
+
+  Lemma inflate_all_total compr lazy content : forall l,
+    Forall fits l ->
+    exists l', map_res (inflate_step compr lazy) l = Ok l' /\ Forall fits l' /\
+               (Forall (ss_ok content) l -> Forall (ss_ok content) l').
+  Proof.
+    induction l as [|s t IH]; intro F; [exists []; repeat split; auto|].
+    inversion F as [|? ? Fs Ft]; subst. cbn [map_res].
+    destruct (inflate_step_total compr lazy s Fs) as (s' & -> & F' & Z1 & Z2). cbn [bind].
+    destruct (IH Ft) as (t' & -> & Ft' & St). cbn [bind].
+    exists (s' :: t'). split; [reflexivity|]. split; [constructor; assumption|].
+    intro H. inversion H as [|? ? Hs Ht]; subst. constructor; [|auto].
+    unfold ss_ok in *. rewrite Z1, Z2. exact Hs.
+  Qed.
+
   Lemma load_sections_total content k st el h lazy :
     st_inv st -> is_content st = content -> is_kind st = k ->
     el_hdr el = Some h -> el_secs el = [] -> el_stream el = Some st ->
@@ -369,10 +399,12 @@ Section WithEnv.
                 0 (e_shnum h) lazy [] [] Hi ltac:(constructor))
       as (st1 & racc & ral & -> & Fr & C1 & I1 & K1 & A1).
     cbn [bind].
-    set (el2 := with_stream (with_secs el (rev_append racc [])) (Some st1)).
+    destruct (inflate_all_total (el_compr el) lazy content (rev_append racc []) ltac:(apply Forall_rev_append; [exact Fr|constructor]))
+      as (secs_i & -> & Fi & Si). cbn [bind].
+    set (el2 := with_stream (with_secs el secs_i) (Some st1)).
     assert (Ok2 : el_ok content k el2).
-    { split; [cbn; apply Forall_rev_append; [exact Fr|constructor]|].
-      split; [cbn; intro Hx; apply Forall_rev_append; [|constructor]; rewrite <- Hc; apply (A1 Hx); constructor|].
+    { split; [cbn; exact Fi|].
+      split; [cbn; intro Hx; apply Si; apply Forall_rev_append; [|constructor]; rewrite <- Hc; apply (A1 Hx); constructor|].
       exists st1. cbn. split; [reflexivity|]. split; [congruence|]. split; [exact I1|congruence]. }
     assert (Al : xlat_empty (el_xlat el) = true -> Forall (fun n => n <= lenN content + 1) (rev_append ral [])).
     { intro Hx. apply Forall_rev_append; [|constructor]. rewrite <- Hc. apply (A1 Hx); constructor. }
